@@ -99,21 +99,24 @@ impl Frame {
         captures: &[ConstantIndex],
         output_type: Option<AstIndex>,
         is_generator: bool,
-    ) -> Self {
+    ) -> Result<Self, FrameError> {
         let temporary_base =
             // register 0 is always self
             1
             // Includes all named args (including unpacked args),
             // and any locally assigned values.
-            + local_count
+            + local_count as usize
             // Captures get copied to local registers when the function is called.
-            + captures.len() as u8
+            + captures.len()
             // To get the first temporary register, we also need to include 'unnamed' args, which
             // are represented in the args list as Placeholders.
             + args
                 .iter()
                 .filter(|arg| matches!(arg, Arg::Placeholder))
-                .count() as u8;
+                .count();
+        let Ok(temporary_base) = u8::try_from(temporary_base) else {
+            return Err(FrameError::StackOverflow);
+        };
 
         // First, assign registers to the 'top-level' args, including placeholder registers
         let mut local_registers = Vec::with_capacity(1 + args.len() + captures.len());
@@ -133,14 +136,14 @@ impl Frame {
             _ => None,
         }));
 
-        Self {
+        Ok(Self {
             register_stack: Vec::with_capacity(temporary_base as usize),
             local_registers,
             temporary_base,
             output_type,
             is_generator,
             ..Default::default()
-        }
+        })
     }
 
     pub fn get_local_assigned_register(&self, local_name: ConstantIndex) -> Option<u8> {
